@@ -1940,11 +1940,35 @@ def run_C16(rep, tier, rng):
             if other != base:
                 rep.violation("a re-layout (whitespace / line endings / comments between tokens) changed the result of generate",
                               {"source_a": texts[start], "source_b": texts[j], "result_a": base[:1200], "result_b": other[:1200]})
+    # lexical errors: the same offending tail behind two layouts of the same tokens — the error must be the same, its
+    # index moved by exactly the difference of the two prefixes' byte lengths (C16_layout_at_boundary)
+    tails = ["$enum", "$start", "$struct x", "#[x(", "#[a[b]", "#[", "%", "$", "#", "/x", "$9", "€", "a$", "é\n", "#[x\n]", "$terminal", "\u200b", "x%y"]
+    lex_cases = []
+    for items in bases[: (60 if tier == "quick" else 1500)]:
+        tail = rng.choice(tails)
+        # (the separator starts with a line break: a rendered layout may end in a comment without one)
+        p1 = gen.render(items, rng) + rng.choice(["\n", "\n ", "\n// é€\n", "\r\n"])
+        p2 = gen.render(items, rng if rng.random() < 0.8 else None) + rng.choice(["\n", "\n\t", "\n\u3000", "\n//x\n"])
+        lex_cases.append((p1, p2, tail))
+    louts = kv.run_impl("generate", [kv.hexs(a + t) for a, _, t in lex_cases] + [kv.hexs(b + t) for _, b, t in lex_cases])
+    nlex = 0
+    for ci, (p1, p2, tail) in enumerate(lex_cases):
+        o1, o2 = louts[ci], louts[len(lex_cases) + ci]
+        m1 = re.match(r"\(err \(Lex (\d+) (.*)\)\)$", o1)
+        m2 = re.match(r"\(err \(Lex (\d+) (.*)\)\)$", o2)
+        if not m1 and not m2:
+            continue        # the tail happened to be fine behind these tokens (both layouts agree on that)
+        nlex += 1
+        ok = bool(m1) and bool(m2) and m1.group(2) == m2.group(2) and int(m1.group(1)) - len(p1.encode()) == int(m2.group(1)) - len(p2.encode())
+        if not ok:
+            rep.violation("a lexical error does not stay the same error, shifted by the change of layout in front of it",
+                          {"source_a": p1 + tail, "source_b": p2 + tail, "result_a": o1[:300], "result_b": o2[:300],
+                           "prefix_bytes_a": len(p1.encode()), "prefix_bytes_b": len(p2.encode())})
     pairs, dis = compare_stage_runs(rep, texts[: (150 if tier == "quick" else 1500)], "C16", keys={"tokens"})
     report_disagreements(rep, dis, "tokens of every layout", "C16_tokens")
     return {"evaluations": len(texts), "distinct_nontrivial": kv.distinct_count(texts),
             "rule": f"each base file (valid, conflicting, or with injected static violations; attributes included) in the plain layout and in {k} random re-layouts (any Unicode White_Space character, LF/CRLF, comments with arbitrary multi-byte content, comment at end of file without newline, no separator where the tokens allow it); results compared with the digest line blanked and every byte position replaced by the index of its token; every re-layout is a non-trivial case",
-            "samples": sample(texts[40:]), "base_outcomes": kinds, "model_disagreements": len(dis)}
+            "samples": sample(texts[40:]), "base_outcomes": kinds, "model_disagreements": len(dis), "lexical_error_pairs": nlex}
 
 
 # =========================================================================================== registry
